@@ -67,6 +67,9 @@ type Options struct {
 	// instance is still being built: every consumer that registers with the
 	// source is handed an event nobody waits for straight away.
 	BusyBus bool
+	// HostTimers gives the instance the timer event definition builder on the
+	// host clock (real time): only for timers that are not due during the test.
+	HostTimers bool
 }
 
 // busySource hands every new consumer a retained event at registration.
@@ -122,6 +125,12 @@ func NewFromDefs(defs *schema.Definitions, tr *quiesce.Tracker, o Options) (*Ins
 		}
 		opts = append(opts, bpmn.WithTracer(tracer), bpmn.WithProcessEventDefinitionInstanceBuilder(builder),
 			bpmn.WithEventEgress(src), bpmn.WithEventIngress(fan))
+	} else if o.HostTimers {
+		fan := event.NewFanOut()
+		tracer := tracing.NewTracer(ctx)
+		builder := event.DefinitionInstanceBuildingChain(timer.EventDefinitionInstanceBuilder(ctx, fan, tracer), event.WrappingDefinitionInstanceBuilder)
+		opts = append(opts, bpmn.WithTracer(tracer), bpmn.WithProcessEventDefinitionInstanceBuilder(builder),
+			bpmn.WithEventEgress(fan), bpmn.WithEventIngress(fan))
 	} else if o.BusyBus {
 		fan := event.NewFanOut()
 		opts = append(opts, bpmn.WithEventEgress(busySource{fan}), bpmn.WithEventIngress(fan))
@@ -398,11 +407,32 @@ func DescribeAll(ts []tracing.ITrace) []string {
 	return out
 }
 
-// Signal / Message make events.
-func Signal(ref string) event.IEvent { return event.NewSignalEvent(ref) }
-func Message(ref string, op string) event.IEvent {
-	if op == "" {
-		return event.NewMessageEvent(ref, nil)
+// Signal / Message make events. Events are immutable values: a caller may
+// well keep ONE object per signal / message and hand it to instances again and
+// again, so the harness does exactly that (the same object for the same
+// reference, process-wide) - an engine that remembers the event it saw last
+// meets the very same object the next time.
+var evPool sync.Map
+
+func Signal(ref string) event.IEvent {
+	if e, ok := evPool.Load("s:" + ref); ok {
+		return e.(event.IEvent)
 	}
-	return event.NewMessageEvent(ref, &op)
+	e, _ := evPool.LoadOrStore("s:"+ref, event.NewSignalEvent(ref))
+	return e.(event.IEvent)
+}
+func Message(ref string, op string) event.IEvent {
+	key := "m:" + ref + "\x00" + op
+	if e, ok := evPool.Load(key); ok {
+		return e.(event.IEvent)
+	}
+	var ne event.IEvent
+	if op == "" {
+		ne = event.NewMessageEvent(ref, nil)
+	} else {
+		o := op
+		ne = event.NewMessageEvent(ref, &o)
+	}
+	e, _ := evPool.LoadOrStore(key, ne)
+	return e.(event.IEvent)
 }
